@@ -1,15 +1,23 @@
 ------------------------- MODULE StoreContractTrace -------------------------
 (***************************************************************************)
 (* Contract monitor for executions recorded from the real local store      *)
-(* (flat or hierarchical access, any allocator / index back end).  It      *)
-(* speaks only about observable events: calls and returns of the BlobAccess*)
-(* API with content identities, block hand-outs and releases of the        *)
-(* allocator, readers and writers opened on blocks, integrity verdicts,    *)
-(* injected corruption.  `Clause` selects the property whose conditions    *)
-(* are enforced (the bookkeeping is the same for all):                     *)
+(* (flat or hierarchical access, any allocator / index back end, volatile  *)
+(* or persistent block list, across crashes and restarts).  It speaks only *)
+(* about observable events: calls and returns of the BlobAccess API with   *)
+(* content identities, block hand-outs and releases of the allocator,      *)
+(* readers and writers opened on blocks, integrity verdicts, injected      *)
+(* corruption, the calls the PeriodicSyncer makes on its source / data     *)
+(* syncer / state store (with virtual time), crashes and restarts.         *)
+(* `Clause` selects the property whose conditions are enforced (the        *)
+(* bookkeeping is the same for all):                                       *)
 (*   "C01"  reads return exactly an upload of the key, or nothing          *)
+(*   "C02"  the same across machine crashes with lost / torn writes        *)
+(*   "C03"  acknowledged uploads survive graceful shutdown / committed     *)
+(*          epochs survive a process crash                                 *)
 (*   "C04"  block space not reused while referenced, nothing leaked        *)
 (*   "C05"  retention after a successful touch; repeating is idempotent    *)
+(*   "C07"  persistence makes progress, respects the minimum epoch         *)
+(*          interval, never panics                                         *)
 (*   "C08"  quarantine after detected corruption                           *)
 (*   "C10"  hierarchical visibility (instance-name prefixes)               *)
 (* A trace is accepted iff every line can be consumed.                     *)
@@ -20,30 +28,46 @@ CONSTANT Clause
 
 Trace == ndJsonDeserialize("trace.ndjson")
 
-VARIABLES l,        \* next line
-          cfg,      \* configuration of the store under test (from Reset)
-          nValid,   \* <<inst, key>> -> number of valid uploads live or completed OK
-          granted,  \* key -> set of instance names with a live-or-OK valid upload
-          inflight, \* process -> record of the operation in flight
-          allocs,   \* number of NewBlock events
-          relsd,    \* number of ListRelease events
-          touch,    \* key -> [a |-> allocs at start of the touching call, e |-> line of its end] ; a = -1: none
-          corrupted,
-          dets,     \* set of [b, line]: corruption detected in block b at line
-          blkRegion,\* block id -> region
-          openR, openW, \* block id -> open readers / writers
-          wblk,     \* process -> block its upload is being written into
-          idem      \* [k, p]: a touch is being repeated immediately (else k = "")
+VARIABLES l,   \* next line
+          s    \* monitor state (one record, see S0)
 
-tvars == <<l, cfg, nValid, granted, inflight, allocs, relsd, touch, corrupted, dets, blkRegion, openR, openW, wblk, idem>>
+tvars == <<l, s>>
 
 Ev == Trace[l]
 On(c) == Clause = c
-ToSet(s) == {s[i] : i \in 1..Len(s)}
+ReadClause == Clause \in {"C01", "C02", "C10"}
+ToSet(q) == {q[i] : i \in 1..Len(q)}
 Get0(f, x, d) == IF x \in DOMAIN f THEN f[x] ELSE d
 Put0(f, x, v) == [y \in DOMAIN f \cup {x} |-> IF y = x THEN v ELSE f[y]]
 Del(f, x) == [y \in DOMAIN f \ {x} |-> f[y]]
 NoTouch == [a |-> -1, e |-> 0]
+NoCommit == [keys |-> {}, line |-> 0]
+Max(a, b) == IF a > b THEN a ELSE b
+
+S0 == [cfg |-> [access |-> "flat", old |-> 0, coop |-> TRUE, minEpoch |-> 0, persistent |-> FALSE],
+       nValid |-> <<>>,    \* <<inst, key>> -> number of valid uploads in flight or completed OK
+       granted |-> <<>>,   \* key -> instance names under which a valid upload completed OK
+       inflight |-> <<>>,  \* process -> [a |-> allocs at start, line |-> line of the start event, ta |-> tallocs]
+       allocs |-> 0,       \* NewBlock events since the last (re)start
+       tallocs |-> 0,      \* NewBlock events since Reset
+       relsd |-> 0,        \* blocks handed back by the block list
+       pops |-> 0,         \* PopFront events
+       touch |-> <<>>,     \* <<inst, key>> -> [a |-> allocs at the start of the touching call, e |-> line of its end]
+       corrupted |-> FALSE,
+       dets |-> {},        \* [b, line]: corruption detected in block b at line
+       blkRegion |-> <<>>, openR |-> <<>>, openW |-> <<>>,
+       wblk |-> <<>>,      \* process -> block its upload is written into
+       idem |-> FALSE,     \* a successful touch is being repeated immediately
+       \* persistence
+       acked |-> <<>>,     \* <<inst, key>> -> tallocs at the start of the latest acknowledged upload
+       cand |-> NoCommit,  \* acknowledged uploads at the latest NotifySyncStarting
+       candSynced |-> NoCommit, candState |-> NoCommit,
+       committed |-> NoCommit, \* ... of the latest commit (data sync + state write) that completed
+       lastDirty |-> 0,    \* line of the latest upload / refresh activity
+       lastSyncT |-> -1,   \* virtual time of the latest non-final NotifySyncStarting
+       shutdown |-> FALSE,
+       phase |-> "run",    \* "run" | "post" (after a restart)
+       must |-> {}]        \* keys that have to be readable after the restart (C03)
 
 \* instance names are logged as sequences of components (<<>> is the root)
 IsPrefix(a, b) == Len(a) <= Len(b) /\ SubSeq(b, 1, Len(a)) = a
@@ -54,194 +78,225 @@ KeyOf(e) == <<e.inst, e.k>>
 \* hierarchical store the stricter "has completed OK" is used (an upload grants nothing before
 \* its content was validated).
 Visible(e) ==
-    IF cfg.access = "hier" /\ cfg.coop
-    THEN \E i \in Get0(granted, e.k, {}) : IsPrefix(i, e.inst)
-    ELSE \E x \in DOMAIN nValid : x[2] = e.k /\ nValid[x] > 0 /\ IsPrefix(x[1], e.inst)
+    IF s.cfg.access = "hier" /\ s.cfg.coop
+    THEN \E i \in Get0(s.granted, e.k, {}) : IsPrefix(i, e.inst)
+    ELSE \E x \in DOMAIN s.nValid : x[2] = e.k /\ s.nValid[x] > 0 /\ IsPrefix(x[1], e.inst)
 
-TInit ==
-    /\ l = 1 /\ cfg = [access |-> "flat", old |-> 0, coop |-> TRUE]
-    /\ nValid = <<>> /\ granted = <<>> /\ inflight = <<>>
-    /\ allocs = 0 /\ relsd = 0 /\ touch = <<>> /\ corrupted = FALSE /\ dets = {}
-    /\ blkRegion = <<>> /\ openR = <<>> /\ openW = <<>> /\ wblk = <<>>
-    /\ idem = [k |-> "", p |-> ""]
+TInit == l = 1 /\ s = S0
 
 Reset ==
     /\ Ev.ev = "Reset"
-    /\ cfg' = Ev.cfg
-    /\ nValid' = <<>> /\ granted' = <<>> /\ inflight' = <<>>
-    /\ allocs' = 0 /\ relsd' = 0 /\ touch' = <<>> /\ corrupted' = FALSE /\ dets' = {}
-    /\ blkRegion' = <<>> /\ openR' = <<>> /\ openW' = <<>> /\ wblk' = <<>>
-    /\ idem' = [k |-> "", p |-> ""]
-
-Unch(vs) == UNCHANGED vs
+    /\ s' = [S0 EXCEPT !.cfg = Ev.cfg @@ S0.cfg]
 
 OpStart(kind) ==
     /\ Ev.ev = kind
-    /\ inflight' = Put0(inflight, Ev.p, [a |-> allocs, line |-> l, ev |-> Ev])
-    \* an immediately repeated touch: previous line ended a successful touch of the same key
-    \* by the same process and nothing else is in flight
-    /\ idem' = IF /\ kind \in {"GetStart", "FmStart"} /\ l > 1 /\ DOMAIN inflight = {}
-                  /\ Trace[l - 1].ev = (IF kind = "GetStart" THEN "GetEnd" ELSE "FmEnd")
-                  /\ Trace[l - 1].p = Ev.p
-                  /\ (kind = "GetStart" => (Trace[l - 1].kind = "Data" /\ Trace[l - 1].k = Ev.k /\ Trace[l - 1].inst = Ev.inst))
-                  /\ (kind = "FmStart" => (Trace[l - 1].res = "OK" /\ Trace[l - 1].ks = Ev.ks /\ Trace[l - 1].inst = Ev.inst))
-               THEN [k |-> "x", p |-> Ev.p]
-               ELSE [k |-> "", p |-> ""]
+    \* an immediately repeated touch: the previous line ended a successful touch of the same
+    \* key by the same process and nothing else is in flight
+    /\ s' = [s EXCEPT
+          !.inflight = Put0(@, Ev.p, [a |-> s.allocs, line |-> l, ta |-> s.tallocs]),
+          !.idem = /\ kind \in {"GetStart", "FmStart"} /\ l > 1 /\ DOMAIN s.inflight = {}
+                   /\ Trace[l - 1].ev = (IF kind = "GetStart" THEN "GetEnd" ELSE "FmEnd")
+                   /\ Trace[l - 1].p = Ev.p
+                   /\ (kind = "GetStart" => (Trace[l - 1].kind = "Data" /\ Trace[l - 1].k = Ev.k /\ Trace[l - 1].inst = Ev.inst))
+                   /\ (kind = "FmStart" => (Trace[l - 1].res = "OK" /\ Trace[l - 1].ks = Ev.ks /\ Trace[l - 1].inst = Ev.inst))]
 
 PutStart ==
-    /\ OpStart("PutStart")
-    /\ nValid' = IF Ev.valid THEN Put0(nValid, KeyOf(Ev), Get0(nValid, KeyOf(Ev), 0) + 1) ELSE nValid
-    /\ granted' = granted   \* names are granted at PutEnd (C10: only a complete, valid upload grants)
-    /\ Unch(<<cfg, allocs, relsd, touch, corrupted, dets, blkRegion, openR, openW, wblk>>)
+    /\ Ev.ev = "PutStart"
+    /\ s' = [s EXCEPT
+          !.inflight = Put0(@, Ev.p, [a |-> s.allocs, line |-> l, ta |-> s.tallocs]),
+          !.lastDirty = l,
+          !.idem = FALSE,
+          !.nValid = IF Ev.valid THEN Put0(@, KeyOf(Ev), Get0(@, KeyOf(Ev), 0) + 1) ELSE @]
 
 PutEnd ==
     /\ Ev.ev = "PutEnd"
-    /\ Ev.p \in DOMAIN inflight
+    /\ Ev.p \in DOMAIN s.inflight
     \* an upload of invalid content is never acknowledged
-    /\ (On("C01") /\ ~Ev.valid) => Ev.res # "OK"
+    /\ (ReadClause /\ ~Ev.valid) => Ev.res # "OK"
     \* C08: an upload written into a block that was quarantined meanwhile is not acknowledged
-    /\ (On("C08") /\ Ev.res = "OK" /\ Ev.p \in DOMAIN wblk) =>
-           ~\E d \in dets : wblk[Ev.p] <= d.b
-    /\ nValid' = IF Ev.valid /\ Ev.res # "OK"
-                 THEN Put0(nValid, KeyOf(Ev), Get0(nValid, KeyOf(Ev), 0) - 1) ELSE nValid
-    /\ granted' = IF Ev.valid /\ Ev.res = "OK"
-                  THEN Put0(granted, Ev.k, Get0(granted, Ev.k, {}) \cup {Ev.inst}) ELSE granted
-    /\ inflight' = Del(inflight, Ev.p)
-    /\ wblk' = IF Ev.p \in DOMAIN wblk THEN Del(wblk, Ev.p) ELSE wblk
-    /\ idem' = [k |-> "", p |-> ""]
-    /\ Unch(<<cfg, allocs, relsd, touch, corrupted, dets, blkRegion, openR, openW>>)
+    /\ (On("C08") /\ Ev.res = "OK" /\ Ev.p \in DOMAIN s.wblk) => ~\E d \in s.dets : s.wblk[Ev.p] <= d.b
+    /\ s' = [s EXCEPT
+          !.nValid = IF Ev.valid /\ Ev.res # "OK" THEN Put0(@, KeyOf(Ev), Get0(@, KeyOf(Ev), 0) - 1) ELSE @,
+          !.granted = IF Ev.valid /\ Ev.res = "OK" THEN Put0(@, Ev.k, Get0(@, Ev.k, {}) \cup {Ev.inst}) ELSE @,
+          !.acked = IF Ev.valid /\ Ev.res = "OK" THEN Put0(@, KeyOf(Ev), s.inflight[Ev.p].ta) ELSE @,
+          !.inflight = Del(@, Ev.p),
+          !.wblk = IF Ev.p \in DOMAIN @ THEN Del(@, Ev.p) ELSE @,
+          !.idem = FALSE]
 
 \* C05: NotFound / missing for a key that was touched successfully by a call that ended
 \* before this call started requires old+1 allocations since that touch started.
 RetentionOK(k, op) ==
-    LET t == Get0(touch, k, NoTouch) IN
-    (On("C05") /\ ~corrupted /\ t.a >= 0 /\ op.line > t.e) => allocs - t.a >= cfg.old + 1
+    LET t == Get0(s.touch, k, NoTouch) IN
+    (On("C05") /\ ~s.corrupted /\ t.a >= 0 /\ op.line > t.e) => s.allocs - t.a >= s.cfg.old + 1
+
+\* C03: after the restart a key that had to survive is readable, unless normal rotation
+\* (old+1 block hand-outs since its upload started) may have evicted it.
+SurvivalOK(k, readable) ==
+    (On("C03") /\ s.phase = "post" /\ k \in s.must /\ ~readable) => s.tallocs - s.acked[k] >= s.cfg.old + 1
 
 GetEnd ==
     /\ Ev.ev = "GetEnd"
-    /\ Ev.p \in DOMAIN inflight
-    /\ LET op == inflight[Ev.p] IN
-       /\ (On("C01") /\ Ev.kind = "Data") => (Ev.what = Ev.k /\ Visible(Ev))
-       /\ (On("C10") /\ Ev.kind = "Data") => (Ev.what = Ev.k /\ Visible(Ev))
-       /\ Ev.kind = "NotFound" => RetentionOK(<<Ev.inst, Ev.k>>, op)
-       /\ touch' = IF Ev.kind = "Data" THEN Put0(touch, <<Ev.inst, Ev.k>>, [a |-> op.a, e |-> l]) ELSE touch
-    /\ inflight' = Del(inflight, Ev.p)
-    /\ idem' = [k |-> "", p |-> ""]
-    /\ Unch(<<cfg, nValid, granted, allocs, relsd, corrupted, dets, blkRegion, openR, openW, wblk>>)
+    /\ Ev.p \in DOMAIN s.inflight
+    /\ LET op == s.inflight[Ev.p] IN
+       /\ (ReadClause /\ Ev.kind = "Data") => (Ev.what = Ev.k /\ Visible(Ev))
+       /\ Ev.kind = "NotFound" => RetentionOK(KeyOf(Ev), op)
+       /\ SurvivalOK(KeyOf(Ev), Ev.kind = "Data")
+       /\ s' = [s EXCEPT
+             !.touch = IF Ev.kind = "Data" THEN Put0(@, KeyOf(Ev), [a |-> op.a, e |-> l]) ELSE @,
+             !.inflight = Del(@, Ev.p),
+             !.idem = FALSE]
 
 FmEnd ==
     /\ Ev.ev = "FmEnd"
-    /\ Ev.p \in DOMAIN inflight
-    /\ LET op == inflight[Ev.p]
+    /\ Ev.p \in DOMAIN s.inflight
+    /\ LET op == s.inflight[Ev.p]
            ks == ToSet(Ev.ks)
-           miss == ToSet(Ev.missing) IN
-       /\ (Ev.res = "OK" /\ (On("C01") \/ On("C10"))) =>
-              \A k \in ks \ miss : Visible([k |-> k, inst |-> Ev.inst])
-       /\ Ev.res = "OK" => \A k \in miss : RetentionOK(<<Ev.inst, k>>, op)
-       /\ touch' = IF Ev.res = "OK"
-                   THEN [x \in DOMAIN touch \cup {<<Ev.inst, k>> : k \in ks \ miss} |->
-                            IF x[1] = Ev.inst /\ x[2] \in ks \ miss THEN [a |-> op.a, e |-> l] ELSE touch[x]]
-                   ELSE touch
-    /\ inflight' = Del(inflight, Ev.p)
-    /\ idem' = [k |-> "", p |-> ""]
-    /\ Unch(<<cfg, nValid, granted, allocs, relsd, corrupted, dets, blkRegion, openR, openW, wblk>>)
+           miss == ToSet(Ev.missing)
+           pres == {<<Ev.inst, k>> : k \in ks \ miss} IN
+       /\ (Ev.res = "OK" /\ ReadClause) => \A k \in ks \ miss : Visible([k |-> k, inst |-> Ev.inst])
+       /\ Ev.res = "OK" => \A k \in miss : RetentionOK(<<Ev.inst, k>>, op) /\ SurvivalOK(<<Ev.inst, k>>, FALSE)
+       /\ s' = [s EXCEPT
+             !.touch = IF Ev.res = "OK"
+                       THEN [x \in DOMAIN @ \cup pres |-> IF x \in pres THEN [a |-> op.a, e |-> l] ELSE @[x]]
+                       ELSE @,
+             !.inflight = Del(@, Ev.p),
+             !.idem = FALSE]
 
 CompEnd ==
     /\ Ev.ev = "CompEnd"
-    /\ Ev.p \in DOMAIN inflight
-    /\ (On("C01") /\ Ev.kind = "Data") => (Ev.what = Ev.want /\ Visible(Ev))
-    /\ inflight' = Del(inflight, Ev.p)
-    /\ idem' = [k |-> "", p |-> ""]
-    /\ Unch(<<cfg, nValid, granted, allocs, relsd, touch, corrupted, dets, blkRegion, openR, openW, wblk>>)
+    /\ Ev.p \in DOMAIN s.inflight
+    /\ (ReadClause /\ Ev.kind = "Data") => (Ev.what = Ev.want /\ Visible(Ev))
+    /\ s' = [s EXCEPT !.inflight = Del(@, Ev.p), !.idem = FALSE]
 
 NewBlock ==
     /\ Ev.ev \in {"NewBlock", "NewBlockAt"}
     \* C04: the region is not handed out while a reader or writer of an earlier block in it is active
+    \* (ReaderClose is logged before the reader lets go of the block, so the reader clause is
+    \*  conservative under any interleaving of the log writes; WriterEnd can only be logged
+    \*  after the writer released the block, so the writer clause is used under the
+    \*  cooperative scheduler only, where a step's events are not interleaved with others)
     /\ (On("C04") /\ Ev.region >= 0) =>
-           \* (ReaderClose is logged before the reader lets go of the block, so the reader clause is
-           \*  conservative under any interleaving of the log writes; WriterEnd can only be logged
-           \*  after the writer released the block, so the writer clause is used under the
-           \*  cooperative scheduler only, where a step's events are not interleaved with others)
-           \A b \in DOMAIN blkRegion : blkRegion[b] = Ev.region =>
-               (Get0(openR, b, 0) = 0 /\ (cfg.coop => Get0(openW, b, 0) = 0))
+           \A b \in DOMAIN s.blkRegion : s.blkRegion[b] = Ev.region =>
+               (Get0(s.openR, b, 0) = 0 /\ (s.cfg.coop => Get0(s.openW, b, 0) = 0))
     \* C05: repeating a touch immediately allocates nothing
-    /\ On("C05") => idem.k = ""
-    /\ blkRegion' = Put0(blkRegion, Ev.blk, Ev.region)
-    /\ allocs' = allocs + 1
-    /\ Unch(<<cfg, nValid, granted, inflight, relsd, touch, corrupted, dets, openR, openW, wblk, idem>>)
+    /\ (On("C05") /\ Ev.ev = "NewBlock") => ~s.idem
+    /\ s' = [s EXCEPT !.blkRegion = Put0(@, Ev.blk, Ev.region),
+                      !.allocs = IF Ev.ev = "NewBlock" THEN @ + 1 ELSE @,
+                      !.tallocs = IF Ev.ev = "NewBlock" THEN @ + 1 ELSE @]
 
-ListRelease ==
-    /\ Ev.ev = "ListRelease"
-    /\ relsd' = relsd + 1
-    /\ Unch(<<cfg, nValid, granted, inflight, allocs, touch, corrupted, dets, blkRegion, openR, openW, wblk, idem>>)
+ListRelease == Ev.ev = "ListRelease" /\ s' = [s EXCEPT !.relsd = @ + 1]
+PopFront == Ev.ev = "PopFront" /\ s' = [s EXCEPT !.pops = @ + 1]
 
 WriterStart ==
     /\ Ev.ev = "WriterStart"
-    /\ On("C05") => idem.k = ""   \* repeating a touch immediately writes nothing
-    /\ openW' = Put0(openW, Ev.blk, Get0(openW, Ev.blk, 0) + 1)
-    /\ wblk' = IF Ev.p # "" THEN Put0(wblk, Ev.p, Ev.blk) ELSE wblk
-    /\ Unch(<<cfg, nValid, granted, inflight, allocs, relsd, touch, corrupted, dets, blkRegion, openR, idem>>)
+    /\ On("C05") => ~s.idem   \* repeating a touch immediately writes nothing
+    /\ s' = [s EXCEPT !.openW = Put0(@, Ev.blk, Get0(@, Ev.blk, 0) + 1),
+                      !.wblk = IF Ev.p # "" THEN Put0(@, Ev.p, Ev.blk) ELSE @,
+                      !.lastDirty = l]
 
 WriterEnd ==
     /\ Ev.ev = "WriterEnd"
-    /\ On("C04") => Get0(openW, Ev.blk, 0) > 0
-    /\ openW' = Put0(openW, Ev.blk, Get0(openW, Ev.blk, 0) - 1)
-    /\ Unch(<<cfg, nValid, granted, inflight, allocs, relsd, touch, corrupted, dets, blkRegion, openR, wblk, idem>>)
+    /\ On("C04") => Get0(s.openW, Ev.blk, 0) > 0
+    /\ s' = [s EXCEPT !.openW = Put0(@, Ev.blk, Get0(@, Ev.blk, 0) - 1)]
 
 ReaderOpen ==
     /\ Ev.ev = "ReaderOpen"
     \* C08: an operation invoked after corruption was detected in block b does not read from blocks <= b
-    /\ (On("C08") /\ Ev.p \in DOMAIN inflight) =>
-           ~\E d \in dets : Ev.blk <= d.b /\ inflight[Ev.p].line > d.line
-    /\ openR' = Put0(openR, Ev.blk, Get0(openR, Ev.blk, 0) + 1)
-    /\ Unch(<<cfg, nValid, granted, inflight, allocs, relsd, touch, corrupted, dets, blkRegion, openW, wblk, idem>>)
+    /\ (On("C08") /\ Ev.p \in DOMAIN s.inflight) =>
+           ~\E d \in s.dets : Ev.blk <= d.b /\ s.inflight[Ev.p].line > d.line
+    /\ s' = [s EXCEPT !.openR = Put0(@, Ev.blk, Get0(@, Ev.blk, 0) + 1)]
 
 ReaderClose ==
     /\ Ev.ev = "ReaderClose"
-    /\ On("C04") => (Ev.n = 1 /\ Get0(openR, Ev.blk, 0) > 0)   \* closed exactly once
-    /\ openR' = Put0(openR, Ev.blk, Get0(openR, Ev.blk, 0) - 1)
-    /\ Unch(<<cfg, nValid, granted, inflight, allocs, relsd, touch, corrupted, dets, blkRegion, openW, wblk, idem>>)
+    /\ On("C04") => (Ev.n = 1 /\ Get0(s.openR, Ev.blk, 0) > 0)   \* closed exactly once
+    /\ s' = [s EXCEPT !.openR = Put0(@, Ev.blk, Get0(@, Ev.blk, 0) - 1)]
 
 Integrity ==
     /\ Ev.ev = "Integrity"
-    \* C01: no data-integrity error on a medium nobody corrupted
-    /\ (On("C01") /\ ~Ev.ok) => corrupted
-    /\ dets' = IF ~Ev.ok THEN dets \cup {[b |-> Ev.blk, line |-> l]} ELSE dets
-    /\ Unch(<<cfg, nValid, granted, inflight, allocs, relsd, touch, corrupted, blkRegion, openR, openW, wblk, idem>>)
+    \* no data-integrity error on a medium nobody corrupted (C02: whatever a crash lost or tore)
+    /\ (ReadClause /\ ~Ev.ok) => s.corrupted
+    /\ s' = [s EXCEPT !.dets = IF ~Ev.ok THEN @ \cup {[b |-> Ev.blk, line |-> l]} ELSE @]
 
-Corrupt ==
-    /\ Ev.ev = "Corrupt"
-    /\ corrupted' = TRUE
-    /\ Unch(<<cfg, nValid, granted, inflight, allocs, relsd, touch, dets, blkRegion, openR, openW, wblk, idem>>)
+Corrupt == Ev.ev = "Corrupt" /\ s' = [s EXCEPT !.corrupted = TRUE]
 
 Quiesce ==
     /\ Ev.ev = "Quiesce"
     /\ On("C04") =>
           /\ Ev.openReaders = 0
           /\ Ev.srcClosedOnce
-          /\ \A b \in DOMAIN openR : openR[b] = 0
-          /\ \A b \in DOMAIN openW : openW[b] = 0
-          \* every block the list let go of has been returned to the allocator
-          /\ Ev.dev => (Ev.devReleases = relsd /\ Ev.devAllocs = allocs)
-    /\ Unch(<<cfg, nValid, granted, inflight, allocs, relsd, touch, corrupted, dets, blkRegion, openR, openW, wblk, idem>>)
+          /\ \A b \in DOMAIN s.openR : s.openR[b] = 0
+          /\ \A b \in DOMAIN s.openW : s.openW[b] = 0
+          \* every block the (volatile) list let go of has been returned to the allocator
+          /\ (Ev.dev /\ ~s.cfg.persistent) => (Ev.devReleases = s.relsd /\ Ev.devAllocs = s.allocs)
+    /\ s' = s
+
+(***************************************************************************)
+(* Persistence (C02, C03, C07)                                             *)
+(***************************************************************************)
+AckedKeys == DOMAIN s.acked
+
+SyncStarting ==
+    /\ Ev.ev = "SyncStarting"
+    \* C07: consecutive epoch syncs are at least the minimum epoch interval apart while running
+    /\ (On("C07") /\ ~Ev.final /\ ~s.shutdown /\ s.lastSyncT >= 0) => Ev.t - s.lastSyncT >= s.cfg.minEpoch
+    /\ s' = [s EXCEPT !.cand = [keys |-> AckedKeys, line |-> l],
+                      !.lastSyncT = IF Ev.final THEN @ ELSE Ev.t]
+
+SyncCompleted == Ev.ev = "SyncCompleted" /\ s' = [s EXCEPT !.candSynced = s.cand]
+GetState == Ev.ev = "GetState" /\ s' = [s EXCEPT !.candState = s.candSynced]
+StateWritten == Ev.ev = "StateWritten" /\ s' = [s EXCEPT !.committed = s.candState]
+ShutdownEv == Ev.ev = "Shutdown" /\ s' = [s EXCEPT !.shutdown = TRUE]
+
+\* everything that can happen without a timer expiring has happened
+QuiesceNoTimer ==
+    /\ Ev.ev = "QuiesceNoTimer"
+    \* C07: released blocks are handed back without waiting for the epoch interval
+    \* (unless a failed state write is waiting for its retry timer)
+    /\ (On("C07") /\ Ev.pendingRetry = 0) => s.relsd = s.pops
+    /\ s' = s
+
+\* all timers have been fired until nothing is left to do
+QuiescePersistent ==
+    /\ Ev.ev = "QuiescePersistent"
+    /\ On("C07") =>
+          /\ s.relsd = s.pops
+          /\ AckedKeys \subseteq s.committed.keys    \* every acknowledged upload is covered by a completed commit
+    /\ s' = s
+
+Crash ==
+    /\ Ev.ev = "Crash"
+    /\ s' = [s EXCEPT
+          !.must = IF Ev.kind = "graceful" THEN AckedKeys
+                   ELSE IF Ev.kind = "process" /\ s.lastDirty < s.committed.line THEN s.committed.keys
+                   ELSE {}]
+
+Restart ==
+    /\ Ev.ev = "Restart"
+    /\ s' = [s EXCEPT !.phase = "post", !.inflight = <<>>, !.allocs = 0, !.relsd = 0, !.pops = 0, !.touch = <<>>,
+                      !.dets = {}, !.blkRegion = <<>>, !.openR = <<>>, !.openW = <<>>, !.wblk = <<>>, !.idem = FALSE,
+                      !.cand = NoCommit, !.candSynced = NoCommit, !.candState = NoCommit, !.committed = NoCommit,
+                      !.lastSyncT = -1, !.shutdown = FALSE]
 
 Panic ==
     /\ Ev.ev = "Panic"
-    /\ FALSE    \* a panic inside the store is never acceptable
+    /\ FALSE    \* a panic inside the store or the syncer is never acceptable
 
 Other ==
-    /\ Ev.ev \in {"ErrorLog", "IndexPut", "NewBlockFail", "Note"}
-    /\ Unch(<<cfg, nValid, granted, inflight, allocs, relsd, touch, corrupted, dets, blkRegion, openR, openW, wblk, idem>>)
+    /\ Ev.ev \in {"ErrorLog", "IndexPut", "NewBlockFail", "Note", "IO", "CrashPoint", "TimerNew", "TimerFire", "PutFetch", "RelFetch",
+                  "StateWriteStart", "StateWriteEnd", "DataSyncStart", "DataSyncEnd", "Restored", "ShutdownComplete", "PushBack"}
+    /\ s' = [s EXCEPT !.lastDirty = IF Ev.ev = "IndexPut" THEN l ELSE @]
 
-GetStart == OpStart("GetStart") /\ Unch(<<cfg, nValid, granted, allocs, relsd, touch, corrupted, dets, blkRegion, openR, openW, wblk>>)
-FmStart == OpStart("FmStart") /\ Unch(<<cfg, nValid, granted, allocs, relsd, touch, corrupted, dets, blkRegion, openR, openW, wblk>>)
-CompStart == OpStart("CompStart") /\ Unch(<<cfg, nValid, granted, allocs, relsd, touch, corrupted, dets, blkRegion, openR, openW, wblk>>)
+GetStart == OpStart("GetStart")
+FmStart == OpStart("FmStart")
+CompStart == OpStart("CompStart")
 
 TNext ==
     /\ l <= Len(Trace) /\ l' = l + 1
     /\ \/ Reset \/ PutStart \/ PutEnd \/ GetStart \/ GetEnd \/ FmStart \/ FmEnd \/ CompStart \/ CompEnd
-       \/ NewBlock \/ ListRelease \/ WriterStart \/ WriterEnd \/ ReaderOpen \/ ReaderClose
+       \/ NewBlock \/ ListRelease \/ PopFront \/ WriterStart \/ WriterEnd \/ ReaderOpen \/ ReaderClose
        \/ Integrity \/ Corrupt \/ Quiesce \/ Panic \/ Other
+       \/ SyncStarting \/ SyncCompleted \/ GetState \/ StateWritten \/ ShutdownEv
+       \/ QuiesceNoTimer \/ QuiescePersistent \/ Crash \/ Restart
 
 TSpec == TInit /\ [][TNext]_tvars
 Accepted == TLCGet("stats").diameter - 1 = Len(Trace)
